@@ -1,5 +1,5 @@
 CONSTANTS T = 2  N = 40  S = 32  Dir = "enc"  EofPeek = TRUE  Pad = 0
-  Gate = TRUE  NotifyReady = TRUE  NotifyUpdate = TRUE  WaitLoop = FALSE  ReadyTest = TRUE  Spurious = TRUE
+  Gate = TRUE  NotifyReady = TRUE  NotifyUpdate = TRUE  WaitLoop = FALSE  ReadyTest = TRUE  Spurious = TRUE  Unbounded = FALSE
   Loads <- MCLoads  DecPad <- MCDecPad
 SPECIFICATION Spec
 INVARIANTS TypeOK Exclusive NoUnderflow InOrder OutPrefix OutExact Quiescent LockDiscipline
